@@ -232,7 +232,7 @@ def check_wiring(ctx, p, sp, where):
         ctx.hook('wiring.pair')
         sig = (sp['d'][a] + sp['d'][b]) / 2.0
         ps = sp['pot'][G.pk(a, b)]
-        clo = p.sys.closure[a, b]
+        clo = p.sys.closure[G.lab(sp, a), G.lab(sp, b)]
         if abs(clo.sigma - sig) > R.CONTACT_TOL:
             ctx.violation('snapshot:wiring-closure-sigma', '%s: closure[%s,%s].sigma=%r, contact distance of that pair is %r' % (where, a, b, clo.sigma, sig))
         su = R.pot_sigma(ps, sig)
@@ -246,11 +246,11 @@ def check_wiring(ctx, p, sp, where):
         if type(clo).__name__ not in [n for n in G.CLOSURES[sp['clo'][G.pk(a, b)]['t']]]:
             ctx.violation('snapshot:wiring-closure-class', '%s: pair %s-%s got closure %s, specified %s' % (where, a, b, type(clo).__name__, sp['clo'][G.pk(a, b)]['t']))
         wref = R.w_ref(sp['om'][G.pk(a, b)], k) * site[i, j]
-        W = np.asarray(p.omega[a, b], dtype=float)
+        W = np.asarray(p.omega[G.lab(sp, a), G.lab(sp, b)], dtype=float)
         N = sp['om'][G.pk(a, b)].get('N', 1)
         if W.shape != wref.shape or not np.all(np.abs(W - wref) <= 1e-7 * N * site[i, j] + 1e-12):
             ctx.violation('snapshot:wiring-omega', '%s: omega[%s,%s] is not %s evaluated on the domain k grid times the site density %r' % (where, a, b, sp['om'][G.pk(a, b)]['t'], site[i, j]))
-        W2 = np.asarray(p.omega[b, a], dtype=float)
+        W2 = np.asarray(p.omega[G.lab(sp, b), G.lab(sp, a)], dtype=float)
         if not np.array_equal(W, W2):
             ctx.violation('snapshot:wiring-omega-asymmetric', '%s: omega[%s,%s] != omega[%s,%s]' % (where, a, b, b, a))
     if p.omega.space != Space.Fourier:
@@ -266,19 +266,20 @@ def apply_edit(rng, s, sp, kind):
     t = str(rng.choice(types))
     a, b = sorted([str(rng.choice(types)), str(rng.choice(types))])
     key = G.pk(a, b)
+    L_ = lambda x: G.lab(sp, x)
     if kind == 'density':
         v = float(sp['rho'][t] * rng.uniform(0.5, 1.3))
         if rng.random() < 0.3:
-            s.density[list(types)] = v
+            s.density[[L_(x) for x in types]] = v
             for tt in types:
                 sp['rho'][tt] = v
             return 'density[all]=%r' % v
-        s.density[t] = v
+        s.density[L_(t)] = v
         sp['rho'][t] = v
         return 'density[%s]=%r' % (t, v)
     if kind == 'diameter':
         v = G.on_grid(rng, sp['dr'], 0.8, 1.4)
-        s.diameter[t] = v
+        s.diameter[L_(t)] = v
         sp['d'][t] = v
         return 'diameter[%s]=%r' % (t, v)
     if kind == 'kT':
@@ -288,17 +289,17 @@ def apply_edit(rng, s, sp, kind):
         return 'kT=%r' % v
     if kind == 'potential':
         ps = G.gen_pot(rng, G.sigma_of(sp, a, b), allow=('HS', 'HCLJ', 'EXP'), strength=0.3)
-        s.potential[a, b] = G.mk_pot(ps)
+        s.potential[L_(a), L_(b)] = G.mk_pot(ps)
         sp['pot'][key] = ps
         return 'potential[%s]=%s' % (key, ps)
     if kind == 'closure':
         cs = {'t': str(rng.choice(['PY', 'HNC', 'MSA'])), 'hc': True}
-        s.closure[a, b] = G.mk_clo(cs)
+        s.closure[L_(a), L_(b)] = G.mk_clo(cs)
         sp['clo'][key] = cs
         return 'closure[%s]=%s' % (key, cs)
     if kind == 'omega':
         os_ = {'t': str(rng.choice(['G', 'FJC', 'RING'])), 'N': int(rng.choice([2, 3, 4, 6])), 's': sp['d'][t]} if rng.random() < 0.7 else {'t': 'SS'}
-        s.omega[t, t] = G.mk_om(os_)
+        s.omega[L_(t), L_(t)] = G.mk_om(os_)
         sp['om'][G.pk(t, t)] = os_
         return 'omega[%s]=%s' % (G.pk(t, t), os_)
     if kind == 'domain_new':
@@ -353,6 +354,7 @@ def run_snapshot(ctx, case):
         kgrid = R.grids(sp['L'], sp['dr'])[1]
         for k in arr:
             sp['om'][k] = {'t': 'ARR', 'w': (0.5 * np.exp(-kgrid * 3.0)).tolist()}
+    sp['labels'] = G.choose_labels(rng, sp['types'])
     originals = []
     s = G.build(sp, originals=originals)
     # the user keeps the objects he assigned and goes on editing them (re-using one potential object for the next pair
@@ -402,7 +404,7 @@ def run_snapshot(ctx, case):
         ctx.hook('isolation.edit')
     # in-place mutation of objects the user still holds
     for key in sp['pot']:
-        a, b = key.split('|')
+        a, b = [G.lab(sp, x) for x in key.split('|')]
         s.potential[a, b].sigma = 123.0
         s.closure[a, b].potential = np.zeros(3)
         s.closure[a, b].sigma = -1.0
@@ -520,6 +522,7 @@ def run_solve_failpoint(ctx, case):
 def run_sweep(ctx, case):
     rng = np.random.default_rng(case['seed'])
     sp = G.easy_spec(rng, rank=int(case['rank']), L=int(rng.choice([64, 128])), dr=0.1, eta_max=0.15)
+    sp['labels'] = G.choose_labels(rng, sp['types'])
     s = G.build(sp)
     opts = {'disp': False, 'maxiter': 40, 'fatol': 1e-10, 'line_search': str(rng.choice(['armijo', 'wolfe']))}
     steps = []
